@@ -5,14 +5,13 @@ import XmlRsModel.Thm.C01
 /-! Property C04: print then parse gives an equal document; the printer reaches a fixpoint.
     FULL STATEMENT:  `∀ d, Printable d → parseDoc (printDoc d) = .ok (d, [])`  and hence
       `printDoc d' = printDoc d` for the re-parsed `d'`.
-    PROVED for documents without XML declaration and DOCTYPE (`print_parse_roundtrip`, `printer_fixpoint`): the compact
+    PROVED for documents without DOCTYPE (`print_parse_roundtrip`, `printer_fixpoint`): the compact
     printer writes one particular rendering (`canonDoc`: one space in front of each attribute, no space around `=`,
     the quote that does not occur in the value, ` />` for an element without children), and every rendering parses to
     the document it renders (C01 `rendering_parses`, the completeness proof of the grammar translated from the current
     source).  `Printable` is spelled out: `canonDoc d = some cd` (the profile), `cd.ok` (the lexical side conditions of
     the productions, decidable), PI data does not start with white space (`faithfulTop`), references declared
-    (`checkDoc`), nesting within the parser's limit.  Documents with XML declaration or DOCTYPE: differential tie and
-    monitor only.
+    (`checkDoc`), nesting within the parser's limit.  Documents with a DOCTYPE: differential tie and monitor only.
     Also proved (`…_partial` = parts of the full statement for every document):  the quoting rule is sound exactly
     when the code must refuse the value, the printer is a homomorphism on item lists, leaf items
     print to the delimiters the grammar expects, and anything the parser returns from printed
@@ -71,7 +70,7 @@ theorem reparse_covers_print_partial (d d' : IDoc) (h : parseDoc (printDoc d) = 
           exact ⟨c, .nt _ _ hd', by simpa [CST.flatten] using hf, hd2⟩
   · cases h
 
-/-- ROUND TRIP: the serialization of a printable document (no XML declaration, no DOCTYPE) is accepted with nothing left
+/-- ROUND TRIP: the serialization of a printable document (no DOCTYPE) is accepted with nothing left
     over and denotes the same document - for every sufficient amount of fuel -/
 theorem print_parse_roundtrip (d : IDoc) (cd : CDoc) (hc : canonDoc d = some cd) (hok : cd.ok = true)
     (hf : d.kids.all faithfulTop = true) (hdepth : cd.root.depth ≤ maxDepth_element) (hchk : checkDoc d = .ok ()) :
@@ -107,7 +106,7 @@ theorem print_parse_roundtrip_at_model_fuel (d : IDoc) (cd : CDoc) (hc : canonDo
     references, CDATA, comment and PIs -/
 def exItem : Item := .elem ⟨none, ['a']⟩ [⟨⟨some ['p'], ['k']⟩, [.text ['v', '"'], .entRef ['a', 'm', 'p']]⟩, ⟨⟨none, ['x']⟩, [.text ['\'']]⟩]
   [.elem ⟨none, ['b']⟩ [] [], .text ['t'], .charRef ['6', '5'] false, .cdata ['c'], .comment ['-', 'c'], .pi ['q'] (some ['d', ' '])]
-def exIDoc : IDoc := ⟨none, none, none, [.comment ['h'], .elem exItem, .pi ['z'] none]⟩
+def exIDoc : IDoc := ⟨some ['1', '.', '0'], some ['U', 'T', 'F', '-', '8'], some true, [.comment ['h'], .elem exItem, .pi ['z'] none]⟩
 example : ∃ cd, canonDoc exIDoc = some cd ∧ cd.ok = true ∧ exIDoc.kids.all faithfulTop = true ∧ cd.root.depth ≤ maxDepth_element :=
   ⟨_, rfl, by decide, by decide, by decide⟩
 example : checkDoc exIDoc = .ok () := by rfl
